@@ -64,6 +64,10 @@ type c16Rec struct {
 	sent    map[[2]int]c16Content
 	decided map[[2]int]string
 	ended   int
+	entered int // th.enter events (tokens taken)
+	myWP    map[*workerPool]bool
+	wpBusy  int // workers of this execution's pools holding a connection
+	wpTaken int
 	nev     int
 	bad     string
 }
@@ -109,6 +113,26 @@ func c16Classify(resp *Response, c, i int) c16Content {
 }
 
 func (r *c16Rec) hook(ev string, o1, o2 any, a, b int) {
+	switch ev {
+	case "wp.get.reuse", "wp.get.create": // a worker of one of this execution's pools takes a connection
+		if wp, ok := o1.(*workerPool); ok {
+			r.mu.Lock()
+			r.myWP[wp] = true
+			r.wpBusy++
+			r.wpTaken++
+			r.mu.Unlock()
+		}
+		return
+	case "wp.release":
+		if wp, ok := o1.(*workerPool); ok {
+			r.mu.Lock()
+			if r.myWP[wp] {
+				r.wpBusy--
+			}
+			r.mu.Unlock()
+		}
+		return
+	}
 	ctx, ok := o1.(*RequestCtx)
 	if !ok || ctx == nil || ctx.s != r.srv {
 		return
@@ -118,6 +142,9 @@ func (r *c16Rec) hook(ev string, o1, o2 any, a, b int) {
 		r.mu.Lock() // released by the th.enter / th.429 / th.rel hook that follows on this goroutine
 	case "th.enter", "th.429":
 		r.emitLocked(vfRec{"ev": ev, "c": r.ctxConn[ctx], "n": a})
+		if ev == "th.enter" {
+			r.entered++
+		}
 		r.mu.Unlock()
 	case "th.rel":
 		q := r.greq[c16Gid()]
@@ -184,17 +211,24 @@ func (r *c16Rec) hook(ev string, o1, o2 any, a, b int) {
 }
 
 type c16Cfg struct {
-	entry                string // "serve": Serve(listener) | "sc": ServeConn only (Serve is never called)
-	conc, nconns, maxreq int
-	timeout              time.Duration
+	// "serve": one listener | "sc": ServeConn only | "two-listeners": Serve on listener A, later a second
+	// Serve on listener B of the same Server | "sc-then-serve": ServeConn first, Serve started later.
+	// In the last two the second entry point is started while a wrapped handler of the first holds a token.
+	entry             string
+	conc, slots, nseq int  // parallel client slots; connections opened one after another per slot
+	maxreq            int  // requests per connection
+	disableKeepalive  bool // Server.DisableKeepalive: every response closes its connection
+	oneP              bool // run with GOMAXPROCS(1): sync.Pool hands a released ctx to the next taker
+	timeout           time.Duration
 }
 
 type c16Req struct {
 	kind   string // "wrapped" | "self"
 	head   bool
-	delays []int // microseconds before each mutation
-	tail   int   // microseconds after the last mutation before h returns
-	pipe   bool  // sent together with the next request
+	delays []int  // microseconds before each mutation
+	tail   int    // microseconds after the last mutation before h returns
+	pipe   bool   // sent together with the next request
+	closes string // "" | "hdr" (Connection: close) | "http10" (HTTP/1.0 without keep-alive): last request of its connection
 }
 
 func (q c16Req) line(c, i int) string {
@@ -210,14 +244,27 @@ func (q c16Req) line(c, i int) string {
 	for k, d := range q.delays {
 		ds[k] = strconv.Itoa(d)
 	}
-	return fmt.Sprintf("%s %s?d=%s&t=%d HTTP/1.1\r\nHost: x\r\nX-Conn: %d\r\nX-Idx: %d\r\n\r\n", m, p, strings.Join(ds, "."), q.tail, c, i)
+	proto, extra := "HTTP/1.1", ""
+	switch q.closes {
+	case "hdr":
+		extra = "Connection: close\r\n"
+	case "http10":
+		proto = "HTTP/1.0"
+	}
+	return fmt.Sprintf("%s %s?d=%s&t=%d %s\r\nHost: x\r\n%sX-Conn: %d\r\nX-Idx: %d\r\n\r\n", m, p, strings.Join(ds, "."), q.tail, proto, extra, c, i)
 }
+
+const c16MaxConns = 4
 
 func c16RunOne(t *testing.T, rng *rand.Rand, tw *vfTraceWriter, trNo int, cfg c16Cfg) (int, int, string, string) {
 	rec := &c16Rec{tw: tw, ctxID: map[*RequestCtx]int{}, ctxConn: map[*RequestCtx]int{}, connID: map[net.Conn]int{},
-		opened: map[int]bool{}, greq: map[uint64][2]int{}, sent: map[[2]int]c16Content{}, decided: map[[2]int]string{}}
+		opened: map[int]bool{}, greq: map[uint64][2]int{}, sent: map[[2]int]c16Content{}, decided: map[[2]int]string{},
+		myWP: map[*workerPool]bool{}}
 	var running, peak atomic.Int32
 	var selfWG sync.WaitGroup
+	if cfg.oneP {
+		defer runtime.GOMAXPROCS(runtime.GOMAXPROCS(1))
+	}
 
 	// mutate performs the scripted mutations of ctx.Response for request (c,i); it runs in the
 	// goroutine started by TimeoutWithCodeHandler (or by the self handler) and keeps going after the timeout
@@ -254,7 +301,7 @@ func c16RunOne(t *testing.T, rng *rand.Rand, tw *vfTraceWriter, trNo int, cfg c1
 		rec.mu.Lock()
 		rec.greq[gid] = [2]int{c, i}
 		rec.mu.Unlock()
-		n := running.Add(1)
+		n := running.Add(1) // wrapped handlers running at once, whatever entry point their connection came through
 		for {
 			m := peak.Load()
 			if n <= m || peak.CompareAndSwap(m, n) {
@@ -288,15 +335,21 @@ func c16RunOne(t *testing.T, rng *rand.Rand, tw *vfTraceWriter, trNo int, cfg c1
 			ctx.TimeoutErrorWithResponse(&resp)
 		}
 	}
-	s := &Server{Handler: handler, Concurrency: cfg.conc, Logger: c16NopLogger{}, NoDefaultServerHeader: true}
+	s := &Server{Handler: handler, Concurrency: cfg.conc, DisableKeepalive: cfg.disableKeepalive, Logger: c16NopLogger{}, NoDefaultServerHeader: true}
 	rec.srv = s
+	multi := cfg.entry == "two-listeners" || cfg.entry == "sc-then-serve"
+	nconns := cfg.slots * cfg.nseq
+	to := int(cfg.timeout / time.Microsecond)
 	nreqTotal := 0
-	scripts := make([][]c16Req, cfg.nconns+1)
-	for c := 1; c <= cfg.nconns; c++ {
+	scripts := make([][]c16Req, nconns+1)
+	for c := 1; c <= nconns; c++ {
+		last := c+cfg.slots > nconns // no further connection follows in this slot
 		nr := 1 + rng.Intn(cfg.maxreq)
-		to := int(cfg.timeout / time.Microsecond)
+		if cfg.disableKeepalive {
+			nr = 1
+		}
 		for i := 0; i < nr; i++ {
-			q := c16Req{kind: "wrapped", head: rng.Intn(6) == 0, pipe: rng.Intn(4) == 0}
+			q := c16Req{kind: "wrapped", head: rng.Intn(6) == 0, pipe: rng.Intn(4) == 0 && !cfg.disableKeepalive}
 			if rng.Intn(6) == 0 {
 				q.kind = "self"
 			}
@@ -307,93 +360,193 @@ func c16RunOne(t *testing.T, rng *rand.Rand, tw *vfTraceWriter, trNo int, cfg c1
 			if rng.Intn(2) == 0 {
 				q.tail = rng.Intn(to + 1)
 			}
+			if i == nr-1 && !cfg.disableKeepalive && (!last || rng.Intn(3) == 0) {
+				// the last request of the connection closes it; before a follow-up connection it is one
+				// whose handler is likely to outlive its timeout and to write afterwards
+				q.closes = []string{"hdr", "http10"}[rng.Intn(2)]
+			}
+			if i == nr-1 && !last && rng.Intn(3) != 0 {
+				q.delays = []int{to / 2, to, to}
+				q.tail = to
+			}
 			scripts[c] = append(scripts[c], q)
 		}
 		nreqTotal += nr
 	}
+	if multi {
+		// the first request of slot 1 keeps its wrapped handler (and its token) busy well beyond the timeout
+		scripts[1][0] = c16Req{kind: "wrapped", delays: []int{to / 2, to + 2000}, tail: 15000}
+	}
 	// the constants of the trace spec come from the first init line of a file: use the per-file maxima
-	tw.Emit(vfRec{"ev": "init", "nc": 2, "nctx": 2 + 2*cfg.maxreq + 2, "maxreq": cfg.maxreq, "maxwr": 3, "nconns": cfg.nconns,
-		"conc": cfg.conc, "tr": trNo, "entry": cfg.entry, "timeout_us": int(cfg.timeout / time.Microsecond)})
+	tw.Emit(vfRec{"ev": "init", "nc": c16MaxConns, "nctx": c16MaxConns + c16MaxConns*cfg.maxreq + 2, "maxreq": cfg.maxreq, "maxwr": 3, "nconns": nconns,
+		"conc": cfg.conc, "tr": trNo, "entry": cfg.entry, "timeout_us": to, "dka": cfg.disableKeepalive, "onep": cfg.oneP})
 	VerifHook = rec.hook
 	defer func() { VerifHook = nil }()
 
-	ln := fasthttputil.NewInmemoryListener()
-	serveDone := make(chan error, 1)
-	if cfg.entry == "serve" {
-		go func() { serveDone <- s.Serve(ln) }()
+	// entry points: listeners are served lazily, the second one of a multi execution only once a token is held
+	lns := map[string]*fasthttputil.InmemoryListener{}
+	var lnMu sync.Mutex
+	var serveWG, scWG sync.WaitGroup
+	listener := func(name string) *fasthttputil.InmemoryListener {
+		lnMu.Lock()
+		defer lnMu.Unlock()
+		if ln, ok := lns[name]; ok {
+			return ln
+		}
+		ln := fasthttputil.NewInmemoryListener()
+		lns[name] = ln
+		s.mu.Lock()
+		before := len(s.ln)
+		s.mu.Unlock()
+		serveWG.Add(1)
+		go func() { defer serveWG.Done(); s.Serve(ln) }()
+		dl := time.Now().Add(5 * time.Second)
+		for { // Serve has registered the listener (and done its set-up under s.mu)
+			s.mu.Lock()
+			n := len(s.ln)
+			s.mu.Unlock()
+			if n > before || time.Now().After(dl) {
+				break
+			}
+			time.Sleep(20 * time.Microsecond)
+		}
+		return ln
 	}
-	var scWG sync.WaitGroup
+	entryOf := func(slot int) string {
+		switch cfg.entry {
+		case "serve":
+			return "A"
+		case "sc":
+			return "sc"
+		case "two-listeners":
+			return []string{"A", "B"}[slot-1]
+		default: // sc-then-serve
+			return []string{"sc", "A"}[slot-1]
+		}
+	}
+	var dialMu sync.Mutex
+	got := make([][]c16Content, nconns+1)
+	errs := make([]string, nconns+1)
 
-	got := make([][]c16Content, cfg.nconns+1)
-	errs := make([]string, cfg.nconns+1)
-	var cwg sync.WaitGroup
-	for c := 1; c <= cfg.nconns; c++ {
-		cwg.Add(1)
-		go func(c int) {
-			defer cwg.Done()
-			var cc net.Conn
-			if cfg.entry == "serve" {
-				var err error
-				if cc, err = ln.Dial(); err != nil {
-					errs[c] = "dial: " + err.Error()
-					return
-				}
-			} else {
-				pcs := fasthttputil.NewPipeConns()
-				cc = pcs.Conn2()
-				scWG.Add(1)
-				go func() {
-					defer scWG.Done()
-					s.ServeConn(pcs.Conn1())
-				}()
-			}
-			defer cc.Close()
-			br := bufio.NewReader(cc)
-			sc := scripts[c]
-			read := func(i int) bool {
-				var resp Response
-				resp.SkipBody = sc[i-1].head
-				cc.SetReadDeadline(time.Now().Add(6 * time.Second))
-				if err := resp.Read(br); err != nil {
-					errs[c] = fmt.Sprintf("reading response %d: %v", i, err)
-					return false
-				}
-				ct := c16Classify(&resp, c, i)
-				if sc[i-1].head {
-					// no body on the wire: classify by status and marker header only
-					st, mark := resp.StatusCode(), string(resp.Header.Peek("X-Mark"))
-					switch {
-					case mark == "" && st == c16Code:
-						ct = c16Content{"TO", c, i, 0}
-					case mark == "" && st == StatusTooManyRequests:
-						ct = c16Content{"429", c, i, 0}
-					case mark == "" && st == StatusOK:
-						ct = c16Content{"clean", 0, 0, 0}
-					default:
-						var mc, mi, mk int
-						if n, _ := fmt.Sscanf(mark, "H-%d-%d-%d", &mc, &mi, &mk); n == 3 && st == 210+mk {
-							ct = c16Content{"H", mc, mi, mk}
-						}
-					}
-				}
-				got[c] = append(got[c], ct)
-				return true
-			}
-			for i := 1; i <= len(sc); i++ {
-				if sc[i-1].pipe && i < len(sc) {
-					cc.Write([]byte(sc[i-1].line(c, i) + sc[i].line(c, i+1)))
-					if !read(i) || !read(i+1) {
+	// runConn plays connection c; returns when the client side is done with it
+	runConn := func(c int, entry string) {
+		var cc net.Conn
+		scDone := make(chan struct{})
+		if entry == "sc" {
+			pcs := fasthttputil.NewPipeConns()
+			cc = pcs.Conn2()
+			scWG.Add(1)
+			go func() {
+				defer scWG.Done()
+				defer close(scDone)
+				s.ServeConn(pcs.Conn1())
+			}()
+		} else {
+			ln := listener(entry)
+			// a worker of the listener's pool must be free, else the connection is turned away with 503 (C12)
+			dialMu.Lock()
+			dl := time.Now().Add(5 * time.Second)
+			for {
+				rec.mu.Lock()
+				busy, taken := rec.wpBusy, rec.wpTaken
+				rec.mu.Unlock()
+				if multi || busy < cfg.conc || time.Now().After(dl) {
+					var err error
+					if cc, err = ln.Dial(); err != nil {
+						errs[c] = "dial: " + err.Error()
+						dialMu.Unlock()
 						return
 					}
-					i++
-					continue
+					for { // until the worker pool has taken it
+						rec.mu.Lock()
+						t2 := rec.wpTaken
+						rec.mu.Unlock()
+						if t2 > taken || time.Now().After(dl) {
+							break
+						}
+						time.Sleep(20 * time.Microsecond)
+					}
+					break
 				}
-				cc.Write([]byte(sc[i-1].line(c, i)))
-				if !read(i) {
-					return
+				time.Sleep(50 * time.Microsecond)
+			}
+			dialMu.Unlock()
+			close(scDone)
+		}
+		defer func() {
+			cc.Close()
+			if entry == "sc" {
+				<-scDone // ServeConn has returned: its concurrency unit is free for the next connection
+			}
+		}()
+		br := bufio.NewReader(cc)
+		sc := scripts[c]
+		read := func(i int) bool {
+			var resp Response
+			resp.SkipBody = sc[i-1].head
+			cc.SetReadDeadline(time.Now().Add(6 * time.Second))
+			if err := resp.Read(br); err != nil {
+				errs[c] = fmt.Sprintf("reading response %d: %v", i, err)
+				return false
+			}
+			ct := c16Classify(&resp, c, i)
+			if sc[i-1].head {
+				// no body on the wire: classify by status and marker header only
+				st, mark := resp.StatusCode(), string(resp.Header.Peek("X-Mark"))
+				switch {
+				case mark == "" && st == c16Code:
+					ct = c16Content{"TO", c, i, 0}
+				case mark == "" && st == StatusTooManyRequests:
+					ct = c16Content{"429", c, i, 0}
+				case mark == "" && st == StatusOK:
+					ct = c16Content{"clean", 0, 0, 0}
+				default:
+					var mc, mi, mk int
+					if n, _ := fmt.Sscanf(mark, "H-%d-%d-%d", &mc, &mi, &mk); n == 3 && st == 210+mk {
+						ct = c16Content{"H", mc, mi, mk}
+					}
 				}
 			}
-		}(c)
+			got[c] = append(got[c], ct)
+			return true
+		}
+		for i := 1; i <= len(sc); i++ {
+			if sc[i-1].pipe && i < len(sc) {
+				cc.Write([]byte(sc[i-1].line(c, i) + sc[i].line(c, i+1)))
+				if !read(i) || !read(i+1) {
+					return
+				}
+				i++
+				continue
+			}
+			cc.Write([]byte(sc[i-1].line(c, i)))
+			if !read(i) {
+				return
+			}
+		}
+	}
+	var cwg sync.WaitGroup
+	for slot := 1; slot <= cfg.slots; slot++ {
+		cwg.Add(1)
+		go func(slot int) {
+			defer cwg.Done()
+			if multi && slot == 2 {
+				// start the second entry point while a wrapped handler of the first one holds a token
+				dl := time.Now().Add(2 * time.Second)
+				for {
+					rec.mu.Lock()
+					n := rec.entered
+					rec.mu.Unlock()
+					if n >= 1 || time.Now().After(dl) {
+						break
+					}
+					time.Sleep(20 * time.Microsecond)
+				}
+			}
+			for k := 0; k < cfg.nseq; k++ {
+				runConn(slot+k*cfg.slots, entryOf(slot))
+			}
+		}(slot)
 	}
 	cwg.Wait()
 	// every handler goroutine finished and released its token, every connection wound up
@@ -403,15 +556,15 @@ func c16RunOne(t *testing.T, rng *rand.Rand, tw *vfTraceWriter, trNo int, cfg c1
 		rec.mu.Lock()
 		ended := rec.ended
 		rec.mu.Unlock()
-		if len(s.concurrencyCh) == 0 && running.Load() == 0 && ended == cfg.nconns {
+		if len(s.concurrencyCh) == 0 && running.Load() == 0 && ended == nconns {
 			break
 		}
 		if time.Now().After(dl) {
-			if running.Load() == 0 && ended == cfg.nconns {
+			if running.Load() == 0 && ended == nconns {
 				// every wrapped handler returned long ago, yet its token was never given back
 				windup = fmt.Sprintf("%d token(s) still held 8s after every wrapped handler had returned and every connection had ended", len(s.concurrencyCh))
 			} else {
-				vfInfra(fmt.Sprintf("c16: execution did not wind up: tokens=%d running=%d ended=%d/%d errs=%v", len(s.concurrencyCh), running.Load(), ended, cfg.nconns, errs))
+				vfInfra(fmt.Sprintf("c16: execution did not wind up: tokens=%d running=%d ended=%d/%d errs=%v", len(s.concurrencyCh), running.Load(), ended, nconns, errs))
 			}
 			break
 		}
@@ -419,13 +572,17 @@ func c16RunOne(t *testing.T, rng *rand.Rand, tw *vfTraceWriter, trNo int, cfg c1
 	}
 	selfWG.Wait()
 	scWG.Wait()
-	ln.Close()
-	if cfg.entry == "serve" {
-		select {
-		case <-serveDone:
-		case <-time.After(5 * time.Second):
-			vfInfra("c16: Serve did not return")
-		}
+	lnMu.Lock()
+	for _, ln := range lns {
+		ln.Close()
+	}
+	lnMu.Unlock()
+	sdone := make(chan struct{})
+	go func() { serveWG.Wait(); close(sdone) }()
+	select {
+	case <-sdone:
+	case <-time.After(5 * time.Second):
+		vfInfra("c16: Serve did not return")
 	}
 	VerifHook = nil
 	if rec.bad != "" {
@@ -436,9 +593,9 @@ func c16RunOne(t *testing.T, rng *rand.Rand, tw *vfTraceWriter, trNo int, cfg c1
 		return rec.nev, nreqTotal, "token-leak", windup
 	}
 	if int(peak.Load()) > cfg.conc {
-		return rec.nev, nreqTotal, fmt.Sprintf("wrapped-peak conc=%d", cfg.conc), fmt.Sprintf("%d wrapped handlers ran at once with Concurrency=%d", peak.Load(), cfg.conc)
+		return rec.nev, nreqTotal, fmt.Sprintf("wrapped-peak conc=%d entry=%s", cfg.conc, cfg.entry), fmt.Sprintf("%d wrapped handlers ran at once with Concurrency=%d", peak.Load(), cfg.conc)
 	}
-	for c := 1; c <= cfg.nconns; c++ {
+	for c := 1; c <= nconns; c++ {
 		if errs[c] != "" {
 			return rec.nev, nreqTotal, "client-read-failed", fmt.Sprintf("conn %d: %s (script %+v, got %v)", c, errs[c], scripts[c], got[c])
 		}
@@ -470,8 +627,19 @@ func TestVerifC16Timeout(t *testing.T) {
 		name := fmt.Sprintf("c16_trace_%d.ndjson", conc)
 		tw := vfNewTrace(t, name)
 		for i := 1; i <= ntr && nfail < 4; i++ {
-			cfg := c16Cfg{entry: []string{"serve", "serve", "sc"}[rng.Intn(3)], conc: conc, nconns: 1 + rng.Intn(conc), maxreq: 4,
+			cfg := c16Cfg{conc: conc, maxreq: 3,
 				timeout: []time.Duration{300 * time.Microsecond, time.Millisecond, 3 * time.Millisecond}[rng.Intn(3)]}
+			switch k := rng.Intn(10); {
+			case k < 2: // a second entry point of the same Server is started while tokens are held
+				cfg.entry = []string{"two-listeners", "sc-then-serve"}[k]
+				cfg.slots, cfg.nseq = 2, 1
+			default:
+				cfg.entry = []string{"serve", "serve", "sc"}[rng.Intn(3)]
+				cfg.slots = 1 + rng.Intn(conc)
+				cfg.nseq = 1 + rng.Intn(c16MaxConns/cfg.slots)
+				cfg.disableKeepalive = rng.Intn(6) == 0
+				cfg.oneP = cfg.nseq > 1 && rng.Intn(3) == 0
+			}
 			n, nr, key, detail := c16RunOne(t, rng, tw, i, cfg)
 			total += n
 			nreq += nr
